@@ -16,7 +16,34 @@ REPO = os.environ.get("VERIF_REPO", "/repo")
 _TU = {}
 
 
+# C preprocessor flavours: the same sources parsed for another target / compiler personality, so that the `_MSC_VER`, 32-bit
+# and `__GNUC__` branches of blake3_impl.h / blake3_dispatch.c are decided too (headers that are not installed are replaced
+# by the declaration-only stand-ins under engines/cfront/stubs; nothing is compiled to code, linked or run)
+_STUBS = os.path.join(VERIF, "engines", "cfront", "stubs")
+C_FLAVOURS = {
+    "gnu-x86_64": (),
+    # -U__clang__: blake3_impl.h prefers the __GNUC__/__clang__ builtins when it sees them; MSVC proper defines neither
+    "msvc-x86_64": ("--target=x86_64-pc-windows-msvc", "-U__clang__", "-isystem", os.path.join(_STUBS, "msvc")),
+    "msvc-i686": ("--target=i686-pc-windows-msvc", "-U__clang__", "-isystem", os.path.join(_STUBS, "msvc")),
+    # a compiler that is neither GNU-like nor MSVC: the portable fallbacks of blake3_impl.h, no x86 dispatch at all
+    "generic": ("-U__clang__", "-U__GNUC__"),
+    "gnu-aarch64": ("--target=aarch64-linux-gnu", "-isystem", os.path.join(_STUBS, "aarch64"), "-isystem", "/usr/include/x86_64-linux-gnu"),
+    "gnu-i686": ("--target=i686-linux-gnu", "-isystem", os.path.join(_STUBS, "i686"), "-isystem", "/usr/include/x86_64-linux-gnu"),
+}
+FLAVOUR = "gnu-x86_64"
+
+
+def set_flavour(fl):
+    global FLAVOUR
+    if fl not in C_FLAVOURS:
+        raise KeyError(fl)
+    FLAVOUR = fl
+
+
 def tu(path, defines=(), **kw):
+    if C_FLAVOURS[FLAVOUR]:
+        kw = dict(kw)
+        kw["extra_args"] = tuple(C_FLAVOURS[FLAVOUR]) + tuple(kw.get("extra_args", ()))
     k = (path, tuple(defines), repr(sorted(kw.items())))
     if k not in _TU:
         _TU[k] = cast.TU(path, defines, **kw)
@@ -324,22 +351,14 @@ def rule_KC(ctx):
     ctx.ob(cs.get("chunk_counter") == "uint64_t" and cs.get("buf") == "uint8_t[64]" and cs.get("cv") == "uint32_t[8]", "c-chunk-layout", "c/blake3.h", "chunk_counter %s, buf %s, cv %s" % (cs.get("chunk_counter"), cs.get("buf"), cs.get("cv")))
     ot = dict(t.structs.get("output_t", []))
     ctx.ob(ot.get("counter") == "uint64_t", "c-output-counter-64bit", "c/blake3.c", "output_t.counter %s" % ot.get("counter"))
-    # scratch arrays (x86-64: MAX_SIMD_DEGREE 16)
-    MAXD, MAX2 = 16, 16
-    def decl_ty(fn, name):
-        for s, g_ in walk_stmts(need(t, fn)["body"]):
-            if s[0] == "decl" and s[1] == name:
-                return s[2]
-        raise MissingAnchor("local %s in C function %s" % (name, fn))
-    checks = [("blake3_compress_subtree_wide", "cv_array", "uint8_t[%d]" % (2 * MAX2 * 32)), ("compress_subtree_to_parent_node", "cv_array", "uint8_t[%d]" % (MAX2 * 32)),
-              ("compress_subtree_to_parent_node", "out_array", "uint8_t[%d]" % (MAX2 * 32 // 2)), ("compress_chunks_parallel", "chunks_array", "const uint8_t *[%d]" % MAXD),
-              ("compress_parents_parallel", "parents_array", "const uint8_t *[%d]" % MAX2), ("output_root_bytes", "wide_buf", "uint8_t[64]")]
-    for fn, name, want_ty in checks:
-        ty = decl_ty(fn, name)
-        ctx.ob(ty == want_ty, "c-scratch:%s.%s" % (fn, name), t.path, "%s: %s ; required %s" % (name, ty, want_ty))
-    # portable-only and NEON sizing via the preprocessor: MAX_SIMD_DEGREE_OR_2 = max(MAX, 2)
-    imp = open(os.path.join(REPO, "c", "blake3_impl.h")).read()
-    ctx.ob(re.search(r"#define\s+MAX_SIMD_DEGREE_OR_2\s+\(MAX_SIMD_DEGREE\s*>\s*2\s*\?\s*MAX_SIMD_DEGREE\s*:\s*2\)", imp) is not None, "c-MAX_SIMD_DEGREE_OR_2", "c/blake3_impl.h", "MAX_SIMD_DEGREE_OR_2 = max(MAX_SIMD_DEGREE, 2)")
+    # scratch arrays: capacities against the widest reachable SIMD degree are M1C's obligation (per preprocessor configuration,
+    # compared with >=); here only the one array whose size is a spec constant
+    for s_, g_ in walk_stmts(need(t, "output_root_bytes")["body"]):
+        if s_[0] == "decl" and s_[1] == "wide_buf":
+            ctx.ob(s_[2] == "uint8_t[64]", "c-scratch:output_root_bytes.wide_buf", t.path, "wide_buf: %s ; required uint8_t[64] (one output block)" % s_[2])
+            break
+    else:
+        raise MissingAnchor("local wide_buf in C function output_root_bytes")
 
 
 def rule_modeC(ctx):
@@ -517,7 +536,7 @@ def rule_M3C(ctx):
 
 # ---------------------------------------------------------------- dispatcher (D1-C), globals, TBB seam ----
 ISA_FEATURE = {"avx512": {"AVX512VL", "AVX512F"}, "avx2": {"AVX2"}, "sse41": {"SSE41"}, "sse2": {"SSE2"}}
-DEGREE = {"avx512": 16, "avx2": 8, "sse41": 4, "sse2": 4}
+DEGREE = {"avx512": 16, "avx2": 8, "sse41": 4, "sse2": 4, "neon": 4}
 
 
 def guard_features(g):
@@ -562,6 +581,15 @@ def rule_D1C(ctx):
                     if fs is not None and pol:
                         feats = fs
                 need_f = ISA_FEATURE.get(isa, {"?"})
+                if isa == "neon" and feats is None and not g:
+                    # NEON is selected by the preprocessor (BLAKE3_USE_NEON == 1), not by a runtime feature test: the call is
+                    # unconditional and must be followed by a return so that the portable fallback is not run as well
+                    feats = frozenset({"NEON"})
+                    need_f = {"NEON"}
+                    body = f["body"]
+                    idx = [i for i, st in enumerate(body) if st[0] == "expr" and st[1] == c]
+                    ctx.ob(bool(idx) and idx[0] + 1 < len(body) and body[idx[0] + 1][0] == "return", "c-dispatch-neon-returns:%s:%s" % (op, tag), where(t, line),
+                           "the unconditional NEON call is followed by return")
                 ok = feats is not None and bool(feats & need_f) and feats <= need_f
                 ctx.ob(ok, "c-dispatch-guard:%s:%s:%s" % (op, isa, tag), where(t, line), "%s called under `features & %s` ; kernel ISA %s" % (c[1], sorted(feats) if feats else None, isa))
                 ctx.ob(c[2] == params, "c-dispatch-passthrough:%s:%s:%s" % (op, isa, tag), where(t, line), "%s(%s)" % (c[1], ", ".join(cshow(a) for a in c[2]))[:160])
@@ -591,6 +619,8 @@ def rule_D1C(ctx):
                     if fs is not None and pol:
                         feats = fs
                 rets.append((frozenset(feats) if feats else None, s[1]))
+        if any(c[0] == "neon" for c in chains["hash_many"]) and len(rets) >= 2 and rets[0][0] is None and not any(r[0] for r in rets):
+            rets[0] = (frozenset({"NEON"}), rets[0][1])     # `#if BLAKE3_USE_NEON == 1  return 4;` precedes the fallback return
         hm = [c for c in chains["hash_many"] if c[0] != "portable"]
         sdc = [r for r in rets if r[0] is not None]
         ctx.ob([c[1] for c in hm] == [r[0] for r in sdc], "c-simd-degree-chain-equals-hash_many:%s" % tag, where(t, sd["line"]),
@@ -599,6 +629,22 @@ def rule_D1C(ctx):
             ctx.ob(v == ("int", DEGREE[isa]) and DEGREE[isa] <= 16, "c-simd-degree:%s:%s" % (isa, tag), where(t, sd["line"]), "%s => degree %s ; kernel width %d, MAX_SIMD_DEGREE 16" % (sorted(fs2), cshow(v), DEGREE[isa]))
         last = [r for r in rets if r[0] is None]
         ctx.ob(bool(last) and last[-1][1] == ("int", 1), "c-simd-degree-fallback:%s" % tag, where(t, sd["line"]), "fallback degree %s" % (cshow(last[-1][1]) if last else "?"))
+
+
+def _norm_atomics(x):
+    """the MSVC spelling of the cache access (ATOMIC_LOAD / ATOMIC_STORE in blake3_dispatch.c): `InterlockedOr(&g, 0)` is a
+    load of g, `InterlockedExchange(&g, v);` as a statement is the store g = v.  Rewritten to the plain forms so that one
+    path rule decides all three spellings (C11 _Atomic, MSVC Interlocked*, plain int)."""
+    if isinstance(x, list):
+        return [_norm_atomics(y) for y in x]
+    if not isinstance(x, tuple):
+        return x
+    if len(x) == 3 and x[0] == "expr" and isinstance(x[1], tuple) and x[1][:2] == ("call", "_InterlockedExchange") and len(x[1][2]) == 2 \
+            and x[1][2][0][:2] == ("un", "&"):
+        return ("assign", "=", x[1][2][0][2], _norm_atomics(x[1][2][1]), x[2])
+    if x[:2] == ("call", "_InterlockedOr") and len(x[2]) == 2 and x[2][0][:2] == ("un", "&") and x[2][1] == ("int", 0):
+        return x[2][0][2]
+    return tuple(_norm_atomics(y) for y in x)
 
 
 def rule_G1C(ctx):
@@ -622,8 +668,9 @@ def rule_G1C(ctx):
                 if s[0] == "decl" and "static" in s[2].split() and "const" not in s[2]:
                     ctx.ob(False, "c-local-static:%s:%s" % (fn, s[1]), where(t, s[4]), "function-local mutable static %s %s" % (s[2], s[1]))
     d = tu("c/blake3_dispatch.c")
+    dfuncs = {fn: dict(f, body=_norm_atomics(f["body"])) for fn, f in d.funcs.items()}
     stores = []
-    for fn, f in d.funcs.items():
+    for fn, f in dfuncs.items():
         for s, g in walk_stmts(f["body"]):
             if s[0] == "assign" and s[2] == ("var", "g_cpu_features", "var"):
                 stores.append((fn, s[3], s[4]))
@@ -633,10 +680,15 @@ def rule_G1C(ctx):
                     cast.walk_expr(e, lambda x: stores.append((fn, x, s[-1])) if x[0] == "un" and x[1] == "&" and x[2] == ("var", "g_cpu_features", "var") else None)
     # who may write: only get_cpu_features; what: a plain local; when: at most once per path, and the
     # local is not modified between the store and the return of that same local (the published value is final)
+    if not any(g["name"] == "g_cpu_features" for g in d.globals):
+        # no x86 dispatch in this flavour (IS_X86 undefined): there is no feature cache, hence nothing shared at all
+        ctx.ob(not stores and "get_cpu_features" not in d.funcs, "c-no-cache-in-this-flavour", d.path, "no g_cpu_features, no get_cpu_features, no stores")
+        return
     bad = [(fn, cshow(v)) for fn, v, l in stores if fn != "get_cpu_features" or v[0] != "var"]
     ctx.ob(bool(stores) and not bad, "c-cache-writer", "c/blake3_dispatch.c",
            "stores to g_cpu_features: %s" % [(fn, cshow(v)) for fn, v, l in stores])
-    gfn = need(d, "get_cpu_features")
+    need(d, "get_cpu_features")
+    gfn = dfuncs["get_cpu_features"]
     problems = []
 
     def is_store(st):
@@ -684,7 +736,7 @@ def rule_G1C(ctx):
     ctx.ob(not problems, "c-cache-store-final", where(d, gfn["line"]),
            "; ".join(sorted(set(problems)))[:300] or "on every path g_cpu_features is stored at most once, from a local that is not modified afterwards and is the value returned")
     # the stored value is computed from cpuid / xgetbv only: every `features |= X` sits under tests of regs / mask
-    gf = need(d, "get_cpu_features")
+    gf = gfn
     srcs = set()
     for c, g, line in calls_in(gf["body"]):
         if isinstance(c[1], str):
@@ -849,3 +901,359 @@ def rule_W1C(ctx):
 def r_cbudget_norm(e):
     import r_cbudget
     return r_cbudget.norm(e)
+
+
+def rule_ZPC(ctx):
+    """C twin of ZP: wherever blake3_chunk_state.buf_len is set back to 0 the same statement list zeroes the whole buf of the
+    same object (memset(x->buf, 0, BLAKE3_BLOCK_LEN)) with no write into buf between the two; buf / buf_len are written only by
+    the chunk_state_* functions.  (The final block is compressed from all 64 buffer bytes: stale bytes would become padding.)"""
+    t = tu("c/blake3.c")
+    n = 0
+    writers = set()
+
+    def lists(stmts):
+        yield stmts
+        for s in stmts:
+            for x in s:
+                if isinstance(x, list):
+                    for y in lists(x):
+                        yield y
+    for fn, f in sorted(t.funcs.items()):
+        tys = local_types(f)
+        for sl in lists(f["body"]):
+            for i, s in enumerate(sl):
+                if s[0] == "assign" and s[2][0] == "member" and s[2][2] in ("buf_len",) and owner_of(t, f, s[2], tys) == ("blake3_chunk_state", "buf_len"):
+                    writers.add(fn)
+                    if s[1] == "=" and s[3] == ("int", 0):
+                        n += 1
+                        base = s[2][1]
+                        zs = [j for j, z in enumerate(sl) if z[0] == "expr" and z[1][:2] == ("call", "memset") and len(z[1][2]) == 3
+                              and nc(z[1][2][0]) == ("member", base, "buf") and z[1][2][1] == ("int", 0) and r_cbudget_norm(z[1][2][2]) == ("int", 64)]
+                        ok = False
+                        for j in zs:
+                            lo, hi = min(i, j), max(i, j)
+                            between = sl[lo + 1:hi]
+                            if not any("'buf'" in repr(b) for b in between):
+                                ok = True
+                        ctx.ob(ok, "c-zero-padding-on-length-reset:%s#%d" % (fn, n), where(t, s[-1]),
+                               "%s = 0 %s" % (cshow(s[2]), "with memset(buf, 0, BLAKE3_BLOCK_LEN) beside it" if ok else "without zeroing buf: stale bytes beyond buf_len would be compressed as padding"))
+        for c, g, line in calls_in(f["body"]):
+            if c[1] in ("memcpy", "memset") and c[2] and "buf" in cshow(c[2][0]):
+                d = c[2][0]
+                while d[0] in ("cast", "bin", "un", "index"):
+                    d = d[1] if d[0] != "bin" else d[2]
+                if d[0] == "member" and d[2] == "buf" and owner_of(t, f, d, tys) == ("blake3_chunk_state", "buf"):
+                    writers.add(fn)
+    allowed = {"chunk_state_init", "chunk_state_reset", "chunk_state_fill_buf", "chunk_state_update"}
+    ctx.ob(writers <= allowed and "chunk_state_update" in writers, "c-buffer-fields-written-only-by-chunk-state-functions", t.path, "writers of buf/buf_len: %s" % sorted(writers))
+    ctx.floor("C length resets with zeroing", n, 3)
+
+
+NO_ISA = ("BLAKE3_NO_SSE2", "BLAKE3_NO_SSE41", "BLAKE3_NO_AVX2", "BLAKE3_NO_AVX512")
+
+
+def rule_M1C(ctx):
+    """scratch capacity vs the widest kernel, per preprocessor configuration: in every combination of the BLAKE3_NO_<ISA>
+    switches (and in every C flavour) the largest value blake3_simd_degree() can return -- read from the dispatcher as parsed
+    with those switches -- fits the on-stack arrays of c/blake3.c as parsed with the same switches: chunks_array >= degree
+    pointers, parents_array >= max(degree, 2), cv_array (subtree_wide) >= 2 * max(degree, 2) CVs, cv_array / out_array
+    (to_parent_node) >= max(degree, 2) CVs / half of that.  Capacities are compared with >=, not ==: a larger array is fine."""
+    import itertools
+    if FLAVOUR.endswith("aarch64"):
+        combos = [(), ("BLAKE3_USE_NEON=0",)]
+    elif ctx.tier == "quick":
+        combos = [(), NO_ISA[3:], NO_ISA[2:], NO_ISA[1:], NO_ISA, (NO_ISA[0],), (NO_ISA[1],)]
+    else:
+        combos = [c for r in range(5) for c in itertools.combinations(NO_ISA, r)]
+    n = 0
+    for defs in combos:
+        tag = "+".join(x.replace("BLAKE3_", "") for x in defs) or "default"
+        d = tu("c/blake3_dispatch.c", defs)
+        t = tu("c/blake3.c", defs)
+        sd = need(d, "blake3_simd_degree")
+        degs = []
+        sym = False
+        for s_, g in walk_stmts(sd["body"]):
+            if s_[0] == "return":
+                v = r_cbudget_norm(s_[1]) if s_[1] is not None else None
+                if v is not None and v[0] == "int":
+                    degs.append(v[1])
+                else:
+                    sym = True
+        if sym or not degs:
+            ctx.ob(False, "c-scratch-capacity:%s" % tag, where(d, sd["line"]), "blake3_simd_degree returns a non-literal value")
+            continue
+        deg = max(degs)
+        d2 = max(deg, 2)
+
+        def cap(fn, name):
+            for s_, g_ in walk_stmts(need(t, fn)["body"]):
+                if s_[0] == "decl" and s_[1] == name:
+                    m = re.search(r"\[(\d+)\]\s*$", s_[2])
+                    return int(m.group(1)) if m else None
+            if name == "out_array":
+                return -1       # the condensing loop is #if'd out when MAX_SIMD_DEGREE_OR_2 == 2
+            raise MissingAnchor("local %s in C function %s" % (name, fn))
+        reqs = [("compress_chunks_parallel", "chunks_array", deg), ("compress_parents_parallel", "parents_array", d2),
+                ("blake3_compress_subtree_wide", "cv_array", 2 * d2 * 32), ("compress_subtree_to_parent_node", "cv_array", d2 * 32),
+                ("compress_subtree_to_parent_node", "out_array", d2 * 32 // 2)]
+        bad = []
+        for fn, name, req in reqs:
+            c = cap(fn, name)
+            if c == -1:
+                if d2 > 2:
+                    bad.append("the loop condensing more than 2 chaining values is compiled out, but degree %d yields up to %d" % (deg, d2))
+                continue
+            if c is None or c < req:
+                bad.append("%s.%s holds %s, needs %d" % (fn, name, c, req))
+        n += 1
+        ctx.ob(not bad, "c-scratch-capacity:%s" % tag, t.path, "widest reachable degree %d (returns %s): %s" % (deg, sorted(set(degs)), "; ".join(bad) or "all five scratch arrays are large enough"))
+    ctx.floor("preprocessor configurations with scratch-capacity check", n, 2)
+
+
+KERNIGHAN = [("decl", "count", "unsigned int", ("int", 0)),
+             ("loop", "while", ("bin", "!=", ("var", "x", "param"), ("int", 0)),
+              [("assign", "+=", ("var", "count", "var"), ("int", 1)), ("assign", "&=", ("var", "x", "param"), ("bin", "-", ("var", "x", "param"), ("int", 1)))]),
+             ("return", ("var", "count", "var"))]
+
+
+def _strip_lines(x):
+    if isinstance(x, list):
+        return [_strip_lines(y) for y in x if not (isinstance(y, list) and not y)]
+    if isinstance(x, tuple):
+        if x and x[0] in ("decl", "assign", "return", "expr", "if", "loop") and isinstance(x[-1], int):
+            x = x[:-1]
+        if x and x[0] == "loop":
+            x = tuple(y for y in x if not isinstance(y, int) and y != [])
+        return tuple(_strip_lines(y) for y in x)
+    return x
+
+
+def rule_HBC(ctx):
+    """the bit helpers of blake3_impl.h in the flavour at hand.  highest_one: for each of the 64 classes of nonzero inputs (highest
+    set bit = q, lower bits arbitrary) the body, interpreted over intervals with every branch decided by the class, returns exactly
+    q -- this covers the __builtin_clzll form, both _BitScanReverse forms and the shift-and-mask fallback.  popcnt is one of the two
+    enumerated forms (the builtin, or Kernighan's clear-lowest-bit loop).  round_down_to_power_of_2(x) = 1 << highest_one(x | 1)."""
+    import bitclass
+    t = tu("c/blake3.c")
+    f = need(t, "highest_one")
+    msvc = FLAVOUR.startswith("msvc")
+    be = bitclass.BitEval(32 if msvc or FLAVOUR.endswith("i686") else 64)
+    bad = []
+    for q in range(64):
+        try:
+            r = be.call(f, [(1 << q, (1 << (q + 1)) - 1)])
+            if r != (q, q):
+                bad.append("highest bit %d: returns %s" % (q, r if r[0] != r[1] else r[0]))
+        except bitclass.Undecided as e:
+            bad.append("highest bit %d: %s" % (q, e))
+    ctx.ob(not bad, "c-highest_one", where(t, f["line"]), "; ".join(bad[:4]) or "returns q for every x in [2^q, 2^(q+1)) and every q in 0..63")
+    p = need(t, "popcnt")
+    body = _strip_lines(p["body"])
+    okb = body == [("return", ("cast", ("call", "__builtin_popcountll", (("var", "x", "param"),)), "unsigned int", "int"))] or body == _strip_lines(KERNIGHAN)
+    ctx.ob(okb, "c-popcnt", where(t, p["line"]), "popcnt is %s" % ("the builtin or Kernighan's loop" if okb else "neither enumerated form: %s" % (body,)))
+    r = need(t, "round_down_to_power_of_2")
+    body = _strip_lines(r["body"])
+    okr = len(body) == 1 and body[0][0] == "return" and nc(body[0][1]) == ("bin", "<<", ("int", 1), ("call", "highest_one", (("bin", "|", ("var", "x", "param"), ("int", 1)),)))
+    ctx.ob(okr, "c-round_down_to_power_of_2", where(t, r["line"]), "1ULL << highest_one(x | 1): %s" % okr)
+
+
+def parse_gcc_asm(text):
+    """(instruction lines, output constraints, input constraints, clobbers) of one GCC extended-asm statement's source text"""
+    i = text.index("(")
+    body = text[i + 1:text.rindex(")")]
+    secs, cur, depth, k = [[]], [], 0, 0
+    toks = []
+    while k < len(body):
+        ch = body[k]
+        if ch == '"':
+            j = k + 1
+            while body[j] != '"' or body[j - 1] == "\\":
+                j += 1
+            toks.append(("str", body[k + 1:j]))
+            k = j + 1
+            continue
+        if ch == "(":
+            depth += 1
+        elif ch == ")":
+            depth -= 1
+        elif ch == ":" and depth == 0:
+            toks.append(("sec", None))
+        k += 1
+    sections = [[]]
+    for kind, v in toks:
+        if kind == "sec":
+            sections.append([])
+        else:
+            sections[-1].append(v)
+    while len(sections) < 4:
+        sections.append([])
+    tmpl = "".join(sections[0]).replace("\\n", "\n").replace("\\t", " ")
+    lines = [" ".join(l.split()) for l in tmpl.split("\n") if l.strip()]
+    return lines, sections[1], sections[2], sections[3]
+
+
+CPUID_BITS = {  # Intel SDM vol. 2A, CPUID; vol. 1 ch. 13-15 (XCR0 state components)
+    "SSE2": {("bit", 1, None, "edx", 26)},
+    "SSSE3": {("bit", 1, None, "ecx", 9)},
+    "SSE41": {("bit", 1, None, "ecx", 19)},
+    "AVX": {("bit", 1, None, "ecx", 27), ("xcr0", 6), ("bit", 1, None, "ecx", 28)},
+    "AVX2": {("bit", 1, None, "ecx", 27), ("xcr0", 6), ("maxleaf", 7), ("bit", 7, 0, "ebx", 5)},
+    "AVX512F": {("bit", 1, None, "ecx", 27), ("xcr0", 6), ("xcr0", 224), ("maxleaf", 7), ("bit", 7, 0, "ebx", 16)},
+    "AVX512VL": {("bit", 1, None, "ecx", 27), ("xcr0", 6), ("xcr0", 224), ("maxleaf", 7), ("bit", 7, 0, "ebx", 31)},
+}
+
+
+def rule_D3C(ctx):
+    """the CPU probes of c/blake3_dispatch.c in the flavour at hand: cpuid/cpuidex hand (id[, sid]) to the instruction in eax[/ecx]
+    and store eax, ebx, ecx, edx to out[0..3] in that order (GNU x86-64 asm, the ebx-preserving i386 asm, or MSVC's
+    __cpuid/__cpuidex); xgetbv reads XCR0 (ecx = 0 / _xgetbv(0)) and returns edx:eax"""
+    d = tu("c/blake3_dispatch.c")
+    if "get_cpu_features" not in d.funcs:
+        ctx.ob("cpuid" not in d.funcs and "xgetbv" not in d.funcs, "c-no-cpu-probes-in-this-flavour", d.path, "no x86 dispatch in this flavour")
+        return
+    OUT = lambda i: ("index", ("var", "out", "param"), ("int", i))
+    for fn, ins in (("cpuid", [("var", "id", "param")]), ("cpuidex", [("var", "id", "param"), ("var", "sid", "param")])):
+        f = need(d, fn)
+        body = f["body"]
+        ok, why = False, "unrecognised body"
+        if len(body) == 1 and body[0][0] == "asm" and body[0][1]:
+            lines, outs, inps, clob = parse_gcc_asm(body[0][1])
+            ops = body[0][2]
+            want_in = ["a", "c"][:len(ins)]
+            if lines == ["cpuid"]:
+                ok = outs == ["=a", "=b", "=c", "=d"] and inps == want_in and ops == tuple(OUT(i) for i in range(4)) + tuple(ins)
+                why = "cpuid with %s -> %s, inputs %s" % (outs, [cshow(o) for o in ops[:4]], inps)
+            elif lines == ["movl %%ebx, %1", "cpuid", "xchgl %1, %%ebx"]:
+                ok = outs == ["=a", "=r", "=c", "=d"] and inps == want_in and ops == tuple(OUT(i) for i in range(4)) + tuple(ins)
+                why = "ebx-preserving cpuid (%%1 = out[1]) with %s, inputs %s" % (outs, inps)
+            else:
+                why = "asm template %s" % lines
+        elif len(body) == 1 and body[0][0] == "expr" and body[0][1][0] == "call":
+            c = body[0][1]
+            want = ("__cpuid" if fn == "cpuid" else "__cpuidex", (("cast", ("var", "out", "param"), "int *"),) + tuple(ins))
+            ok = (c[1], tuple(nc(a) for a in c[2])) == want
+            why = cshow(c)
+        ctx.ob(ok, "c-probe:%s" % fn, where(d, f["line"]), why)
+    f = need(d, "xgetbv")
+    body = _strip_lines(f["body"])
+    ok, why = False, "unrecognised body"
+    if len(body) == 1 and body[0][0] == "return":
+        ok = body[0][1] == ("call", "_xgetbv", (("int", 0),))
+        why = cshow(body[0][1])
+    else:
+        asms = [s for s in f["body"] if s[0] == "asm"]
+        rets = [s for s in body if s[0] == "return"]
+        if len(asms) == 1 and asms[0][1] and len(rets) == 1:
+            lines, outs, inps, clob = parse_gcc_asm(asms[0][1])
+            ops = asms[0][2]
+            ok = lines == ["xgetbv"] and outs == ["=a", "=d"] and inps == ["c"] and len(ops) == 3 and ops[2] == ("int", 0) and ops[0][0] == "var" and ops[1][0] == "var" \
+                and nc(rets[0][1]) == ("bin", "|", ("bin", "<<", ("cast", ops[1], "uint64_t"), ("int", 32)), ops[0])
+            why = "xgetbv with ecx=%s -> %s ; returns %s" % (cshow(ops[2]) if len(ops) == 3 else "?", outs, cshow(rets[0][1]))
+    ctx.ob(ok, "c-probe:xgetbv", where(d, f["line"]), why)
+
+
+def cfold(e):
+    """integer value of a constant expression (literals, enums, casts, + - * / << >> | &), else None"""
+    e = r_cbudget_norm(e)
+    if e[0] == "int":
+        return e[1]
+    if e[0] == "bin":
+        a, b = cfold(e[2]), cfold(e[3])
+        if a is None or b is None:
+            return None
+        return {"<<": a << b if 0 <= b < 64 else None, ">>": a >> b if 0 <= b < 64 else None, "|": a | b, "&": a & b, "+": a + b, "-": a - b, "*": a * b}.get(e[1])
+    return None
+
+
+def rule_D4C(ctx):
+    """the CPUID decode of get_cpu_features: every `features |= X` is guarded by (at least) the architectural conditions for X --
+    the right register bit of the right leaf (the leaf is the one last queried on the path), OSXSAVE plus the XCR0 state bits for
+    the AVX family, max leaf >= 7 before leaf 7 is read.  Extra guards are fine; a missing or misplaced one lets a kernel be
+    selected on a CPU/OS that cannot run it.  SSE2 may be unconditional only where the target is x86-64."""
+    d = tu("c/blake3_dispatch.c")
+    if "get_cpu_features" not in d.funcs:
+        ctx.ob(True, "c-no-cpu-probes-in-this-flavour", d.path, "no x86 dispatch in this flavour")
+        return
+    f = dict(d.funcs["get_cpu_features"], body=_norm_atomics(d.funcs["get_cpu_features"]["body"]))
+    regs = {}
+    found = {}
+    problems = []
+    is64 = not FLAVOUR.endswith("i686")
+
+    def cond_atoms(c, st):
+        """conjuncts of a guard as architectural atoms (None for anything else)"""
+        c = nc(c)
+        if c[0] == "bin" and c[1] == "&&":
+            return cond_atoms(c[2], st) + cond_atoms(c[3], st)
+        if c[0] == "bin" and c[1] == "&" and c[2][:2] == ("un", "*") and c[2][2][0] == "var" and c[2][2][1] in regs:
+            m = cfold(c[3])
+            if m and m & (m - 1) == 0:
+                if st["leaf"] is None:
+                    problems.append("a register bit is tested where the queried leaf is not determined")
+                    return [None]
+                return [("bit", st["leaf"][0], st["leaf"][1], regs[c[2][2][1]], m.bit_length() - 1)]
+        if c[0] == "bin" and c[1] == "==" and c[2][0] == "bin" and c[2][1] == "&" and c[2][2] == ("var", st.get("mask"), "var"):
+            a, b = cfold(c[2][3]), cfold(c[3])
+            if a is not None and a == b:
+                return [("xcr0", a)]
+        if c[0] == "bin" and c[1] == ">=" and c[2] == ("var", st.get("maxid"), "var"):
+            b = cfold(c[3])
+            if b is not None:
+                return [("maxleaf", b)]
+        return [None]
+
+    def walk(stmts, guards, st):
+        for s in stmts:
+            if s[0] == "decl" and s[3] is not None:
+                e = nc(s[3])
+                if e[:2] == ("un", "&") and e[2][0] == "index" and e[2][1] == ("var", "regs", "var") and e[2][2][0] == "int":
+                    regs[s[1]] = ["eax", "ebx", "ecx", "edx"][e[2][2][1]] if e[2][2][1] < 4 else "?"
+                elif e == ("call", "xgetbv", ()):
+                    st["mask"] = s[1]
+                elif e[:2] == ("un", "*") and e[2][0] == "var" and regs.get(e[2][1]) == "eax" and st["leaf"] == (0, None):
+                    st["maxid"] = s[1]
+            if s[0] == "expr" and s[1][0] == "call" and s[1][1] in ("cpuid", "cpuidex"):
+                a = [cfold(x) for x in s[1][2][1:]]
+                if s[1][2][0] == ("var", "regs", "var") and all(x is not None for x in a):
+                    st["leaf"] = (a[0], a[1] if len(a) > 1 else None)
+                else:
+                    st["leaf"] = None
+            if s[0] == "assign" and s[2] == ("var", "features", "var") and s[1] == "|=" and s[3][0] == "enum":
+                found.setdefault(s[3][1], []).append((set(g for g in guards if g is not None), s[-1]))
+            if s[0] == "if":
+                subs = [x for x in s if isinstance(x, list)]
+                at = cond_atoms(s[1], st)
+                st2 = dict(st)
+                walk(subs[0], guards + at, st2)
+                if len(subs) > 1 and subs[1]:
+                    st3 = dict(st)
+                    walk(subs[1], guards, st3)
+                    if st3["leaf"] != st["leaf"]:
+                        st["leaf"] = None
+                if st2["leaf"] != st["leaf"]:
+                    st["leaf"] = None        # a leaf queried inside the branch: unknown after the join
+                for k in ("mask", "maxid"):
+                    st.setdefault(k, st2.get(k))
+            if s[0] == "loop":
+                problems.append("loop in get_cpu_features")
+    walk(f["body"], [], {"leaf": None})
+    n = 0
+    for feat, req in sorted(CPUID_BITS.items()):
+        sites = found.get(feat, [])
+        if not sites:
+            ctx.ob(False, "c-cpuid-decode:%s" % feat, where(d, f["line"]), "no `features |= %s` found" % feat)
+            continue
+        for gs, line in sites:
+            n += 1
+            need_ = set(req)
+            if feat == "SSE2" and is64 and not gs:
+                need_ = set()      # architecturally guaranteed on x86-64
+            have_x = 0
+            for g_ in gs:
+                if g_[0] == "xcr0":
+                    have_x |= g_[1]
+            miss = set(r_ for r_ in need_ - gs if not (r_[0] == "xcr0" and r_[1] & ~have_x == 0) and not (r_[0] == "maxleaf" and any(g_[0] == "maxleaf" and g_[1] >= r_[1] for g_ in gs)))
+            ctx.ob(not miss, "c-cpuid-decode:%s" % feat, where(d, line), "features |= %s under %s%s" % (feat, sorted(gs, key=str), " ; missing %s" % sorted(miss, key=str) if miss else ""))
+    ctx.ob(not problems, "c-cpuid-decode-shape", where(d, f["line"]), "; ".join(sorted(set(problems))) or "every tested register bit belongs to a determined leaf")
+    ctx.floor("feature-bit decode sites", n, 7)
